@@ -83,7 +83,10 @@ def check_eager_vs_model(fn, model_proto, specs, attrs, stats: Q.Stats, loop_bou
     args = [E.SymTensor(inputs[n]) for n, _, _ in specs]
     eres, cut = E.eager_paths(fn, args, dict(attrs), max_depth=2 * loop_bound + 2, base_constraints=box, int_bound=loop_bound)
     eres_live = [r for r in eres if not r.get("cut")]
-    model = ir.from_proto(model_proto)
+    try:
+        model = ir.from_proto(model_proto)
+    except Exception as e:  # noqa: BLE001 - a proto the real converter emitted and onnx_ir itself cannot read (e.g. a name defined twice)
+        raise Malformed(f"the emitted proto cannot be deserialized: {type(e).__name__}: {str(e)[:300]}") from e
     names = [v.name for v in model.graph.inputs]
     if len(names) != len(specs):
         return {"verdict": "cex", "kind": "structure", "detail": f"model has {len(names)} inputs, function has {len(specs)} tensor parameters",
